@@ -127,6 +127,21 @@ class Doc:
             if J['attrs'][t]:
                 self.trip(name, 'all-attributes', all_attrs(False))
                 self.trip(name, 'all-attributes-float', all_attrs(True))
+                # every free-string attribute (no enumeration, no pattern) carrying markup, quotes, a non-BMP character:
+                # what to_string escapes must come back through the library's own parser as the same string
+                free = [an for (an, at, rq) in J['attrs'][t]
+                        if J['st'][at]['prim'] == 'string' and not J['st'][at]['hasEnum'] and not J['st'][at]['pats']
+                        and not J['st'][at]['union'] and ':' not in an]
+                if free:
+                    def markup():
+                        e = F.mk(name)
+                        for an in free:
+                            try:
+                                setattr(e, an.replace('-', '_'), '<&>"\' \u00e9\U0001d11e')
+                            except Exception:   # noqa
+                                pass            # a refusal is C04/C05's business; the trip judges what was accepted
+                        return e
+                    self.trip(name, 'attr-markup', markup)
             st = J['sbase'][t]
         else:
             st = t
@@ -139,6 +154,8 @@ class Doc:
                 self.trip(name, 'text-exterior-blanks', lambda: cls('  a  b ', **kwargs))
                 self.trip(name, 'text-inner-whitespace', lambda: cls('a\n b  c\td', **kwargs))
                 self.trip(name, 'text-markup', lambda: cls('<&>"\' é\U0001d11e', **kwargs))
+                # white space of Unicode that is not white space of XML, at the edges and inside: ordinary content
+                self.trip(name, 'text-unicode-space', lambda: cls('\u00a0a\u2003b\u3000', **kwargs))
             # integer-valued types without an upper bound: a value no binary float holds exactly
             lv = self.leaves(st)
             ints = [l for l in lv if J['st'][l]['prim'] == 'decimal' and J['st'][l]['int']]
